@@ -226,14 +226,14 @@ Section P.
     - destruct (p_rowhist p); cbn; auto.
     - cbn; auto.
     - destruct (gen_find g (rs_gens s)) as [[c i]|]; cbn; auto.
-    - destruct (lru_call _ _ _ _); cbn; auto.
-    - dt_branches k; try (cbn; auto; fail). destruct (lru_call _ _ _ _); cbn; auto.
+    - destruct (is_object_key k); [cbn; auto|]. destruct (lru_call _ _ _ _); cbn; auto.
+    - dt_branches k; try (cbn; auto; fail). destruct (is_object_key k); [cbn; auto|]. destruct (lru_call _ _ _ _); cbn; auto.
     - destruct (p_rowhist p); [destruct (existsb _ _)|]; cbn; auto.
     - cbn; auto.
     - cbn; auto.
     - destruct (last_id table s =? n); cbn; auto.
     - destruct (assoc_find site (rs_states s)); [cbn; auto|].
-      destruct (lru_call _ _ _ _); cbn; auto.
+      destruct (is_object_key k); [cbn; auto|]. destruct (lru_call _ _ _ _); cbn; auto.
     - destruct (assoc_find site (rs_states s)); [cbn; auto|].
       pose proof (with_chdir_restores (match c_dir cx with Some d => d | None => p_cwd p end) p file) as W.
       destruct (Isolation.with_chdir _ _ _ _ _) as [p' [v|er]]; cbn [fst] in *; subst p'; auto.
@@ -245,10 +245,12 @@ Section P.
     - destruct (p_rowhist p); cbn [fst]; split; assumption.
     - cbn [fst]. split; assumption.
     - destruct (gen_find g (rs_gens s)) as [[c i]|]; cbn [fst]; split; assumption.
-    - destruct (lru_call date_cache_size parse_d (p_dates p) k) as [c r] eqn:E. cbn [fst].
+    - destruct (is_object_key k); [cbn [fst]; split; assumption|].
+      destruct (lru_call date_cache_size parse_d (p_dates p) k) as [c r] eqn:E. cbn [fst].
       split; cbn [set_dates p_dates p_dts]; auto.
       change c with (fst (c, r)). rewrite <- E. apply lru_call_items; auto.
     - dt_branches k; try (cbn [fst]; split; assumption).
+      destruct (is_object_key k); [cbn [fst]; split; assumption|].
       destruct (lru_call date_cache_size parse_dt (p_dts p) k) as [c r] eqn:E. cbn [fst].
       split; cbn [set_dts p_dates p_dts]; auto.
       change c with (fst (c, r)). rewrite <- E. apply lru_call_items; auto.
@@ -258,6 +260,7 @@ Section P.
     - cbn [fst]. split; assumption.
     - destruct (last_id table s =? n); cbn [fst]; split; assumption.
     - destruct (assoc_find site (rs_states s)); [cbn [fst]; split; assumption|].
+      destruct (is_object_key k); [cbn [fst]; split; assumption|].
       destruct (lru_call date_cache_size parse_d (p_dates p) k) as [c r] eqn:E. cbn [fst].
       split; cbn [set_dates p_dates p_dts]; auto.
       change c with (fst (c, r)). rewrite <- E. apply lru_call_items; auto.
@@ -457,13 +460,13 @@ Section P.
     - destruct (p_rowhist p) eqn:E; cbn [fst set_rowhist p_rowhist]; auto.
     - reflexivity.
     - destruct (gen_find g (rs_gens s)) as [[c i]|]; reflexivity.
-    - destruct (lru_call _ _ _ _); reflexivity.
-    - dt_branches k; try reflexivity. destruct (lru_call _ _ _ _); reflexivity.
+    - destruct (is_object_key k); [reflexivity|]. destruct (lru_call _ _ _ _); reflexivity.
+    - dt_branches k; try reflexivity. destruct (is_object_key k); [reflexivity|]. destruct (lru_call _ _ _ _); reflexivity.
     - destruct (p_rowhist p) eqn:E; [destruct (existsb _ _)|]; cbn [fst]; auto.
     - reflexivity.
     - reflexivity.
     - destruct (last_id table s =? n); reflexivity.
-    - destruct (assoc_find site (rs_states s)); [reflexivity|]. destruct (lru_call _ _ _ _); reflexivity.
+    - destruct (assoc_find site (rs_states s)); [reflexivity|]. destruct (is_object_key k); [reflexivity|]. destruct (lru_call _ _ _ _); reflexivity.
     - destruct (assoc_find site (rs_states s)); [reflexivity|].
       pose proof (with_chdir_restores (match c_dir cx with Some d => d | None => p_cwd p end) p file) as W.
       destruct (Isolation.with_chdir _ _ _ _ _) as [p' [v|er]]; cbn [fst] in *; subst p'; reflexivity.
@@ -480,13 +483,13 @@ Section P.
     - destruct (p_rowhist p); reflexivity.
     - reflexivity.
     - destruct (gen_find g (rs_gens s)) as [[c i]|]; reflexivity.
-    - destruct (lru_call _ _ _ _); reflexivity.
-    - dt_branches k; try reflexivity. destruct (lru_call _ _ _ _); reflexivity.
+    - destruct (is_object_key k); [reflexivity|]. destruct (lru_call _ _ _ _); reflexivity.
+    - dt_branches k; try reflexivity. destruct (is_object_key k); [reflexivity|]. destruct (lru_call _ _ _ _); reflexivity.
     - destruct (p_rowhist p); [destruct (existsb _ _)|]; reflexivity.
     - reflexivity.
     - reflexivity.
     - destruct (last_id table s =? n); reflexivity.
-    - destruct (assoc_find site (rs_states s)); [reflexivity|]. destruct (lru_call _ _ _ _); reflexivity.
+    - destruct (assoc_find site (rs_states s)); [reflexivity|]. destruct (is_object_key k); [reflexivity|]. destruct (lru_call _ _ _ _); reflexivity.
     - destruct (assoc_find site (rs_states s)); [reflexivity|].
       pose proof (with_chdir_restores (match c_dir cx with Some d => d | None => p_cwd p end) p file) as W.
       destruct (Isolation.with_chdir _ _ _ _ _) as [p' [v|er]]; cbn [fst] in *; subst p'; reflexivity.
@@ -521,7 +524,8 @@ Section P.
       + reflexivity.
       + destruct Ho as [Ho|Ho]; [discriminate|].
         destruct (gen_find g (rs_gens s)) as [[c i]|]; cbn [snd]; [reflexivity|]. rewrite Ho. reflexivity.
-      + pose proof (lru_call_value date_cache_size parse_d (p_dates p1) k (fun v H => Hd1 k v H)) as V1.
+      + destruct (is_object_key k); [reflexivity|].
+        pose proof (lru_call_value date_cache_size parse_d (p_dates p1) k (fun v H => Hd1 k v H)) as V1.
         pose proof (lru_call_value date_cache_size parse_d (p_dates p2) k (fun v H => Hd2 k v H)) as V2.
         destruct (lru_call date_cache_size parse_d (p_dates p1) k) as [c1 r1].
         destruct (lru_call date_cache_size parse_d (p_dates p2) k) as [c2 r2].
@@ -529,6 +533,7 @@ Section P.
       + destruct (String.eqb k "now"); [reflexivity|].
         destruct (String.eqb k "today"); [reflexivity|].
         destruct (is_relative_spec k); [reflexivity|].
+        destruct (is_object_key k); [reflexivity|].
         pose proof (lru_call_value date_cache_size parse_dt (p_dts p1) k (fun v H => Ht1 k v H)) as V1.
         pose proof (lru_call_value date_cache_size parse_dt (p_dts p2) k (fun v H => Ht2 k v H)) as V2.
         destruct (lru_call date_cache_size parse_dt (p_dts p1) k) as [c1 r1].
@@ -539,6 +544,7 @@ Section P.
       + reflexivity.
       + destruct (last_id table s =? n); reflexivity.
       + destruct (assoc_find site (rs_states s)); [reflexivity|].
+        destruct (is_object_key k); [reflexivity|].
         pose proof (lru_call_value date_cache_size parse_d (p_dates p1) k (fun v H => Hd1 k v H)) as V1.
         pose proof (lru_call_value date_cache_size parse_d (p_dates p2) k (fun v H => Hd2 k v H)) as V2.
         destruct (lru_call date_cache_size parse_d (p_dates p1) k) as [c1 r1].
@@ -810,8 +816,9 @@ Section P.
         unfold last_id. cbn [rs_ids]. rewrite assoc_find_set_other by exact E. reflexivity.
     - injection H as _ <- <-. split; [reflexivity|]. left. auto.
     - destruct (gen_find g (rs_gens s)) as [[c i]|]; injection H as _ <- <-; (split; [reflexivity|]); left; auto.
-    - destruct (lru_call _ _ _ _) as [c [v|]]; [|discriminate]. injection H as _ <- <-. split; [reflexivity|]. left; auto.
+    - destruct (is_object_key k); [destruct (parse_d k) as [v|]; [|discriminate]; injection H as _ <- <-; split; [reflexivity|]; left; auto|]. destruct (lru_call _ _ _ _) as [c [v|]]; [|discriminate]. injection H as _ <- <-. split; [reflexivity|]. left; auto.
     - dt_branches k; try (injection H as _ <- <-; split; [reflexivity|]; left; auto).
+      destruct (is_object_key k); [destruct (parse_dt k) as [v|]; [|discriminate]; injection H as _ <- <-; split; [reflexivity|]; left; auto|]. 
       destruct (lru_call _ _ _ _) as [c [v|]]; [|discriminate]. injection H as _ <- <-. split; [reflexivity|]. left; auto.
     - destruct (p_rowhist p); [|discriminate]. destruct (existsb _ _); [|discriminate].
       injection H as _ <- <-. split; [reflexivity|]. left; auto.
@@ -819,6 +826,7 @@ Section P.
     - discriminate.
     - destruct (last_id table s =? n); [discriminate|]. injection H as _ <- <-. split; [reflexivity|]. left; auto.
     - destruct (assoc_find site (rs_states s)); [injection H as _ <- <-; split; [reflexivity|]; left; auto|].
+      destruct (is_object_key k); [destruct (parse_d k) as [v|]; [|discriminate]; injection H as _ <- <-; split; [reflexivity|]; left; auto|]. 
       destruct (lru_call _ _ _ _) as [c [v|]]; [|discriminate]. injection H as _ <- <-. split; [reflexivity|]. left; auto.
     - destruct (assoc_find site (rs_states s)); [injection H as _ <- <-; split; [reflexivity|]; left; auto|].
       destruct (Isolation.with_chdir _ _ _ _ _) as [q [v|er]]; [|discriminate].
@@ -1025,13 +1033,13 @@ Section P.
     - destruct (p_rowhist p); reflexivity.
     - reflexivity.
     - destruct (gen_find g (rs_gens s)) as [[c i]|]; reflexivity.
-    - destruct (lru_call _ _ _ _); reflexivity.
-    - dt_branches k; try reflexivity. destruct (lru_call _ _ _ _); reflexivity.
+    - destruct (is_object_key k); [reflexivity|]. destruct (lru_call _ _ _ _); reflexivity.
+    - dt_branches k; try reflexivity. destruct (is_object_key k); [reflexivity|]. destruct (lru_call _ _ _ _); reflexivity.
     - destruct (p_rowhist p); [destruct (existsb _ _)|]; reflexivity.
     - reflexivity.
     - reflexivity.
     - destruct (last_id table s =? n); reflexivity.
-    - destruct (assoc_find site (rs_states s)); [reflexivity|]. destruct (lru_call _ _ _ _); reflexivity.
+    - destruct (assoc_find site (rs_states s)); [reflexivity|]. destruct (is_object_key k); [reflexivity|]. destruct (lru_call _ _ _ _); reflexivity.
     - destruct (assoc_find site (rs_states s)); [reflexivity|].
       unfold Isolation.with_chdir. cbn [set_cwd set_app p_cwd p_uid p_dates p_dts p_masks p_rowhist p_path p_home p_modules p_app].
       destruct (read_file _ file); reflexivity.
@@ -1094,8 +1102,9 @@ Section P.
     - injection H as <- <- <-. destruct (p_rowhist p); auto.
     - injection H as <- <- <-. auto.
     - exfalso. apply (No g). reflexivity.
-    - destruct (lru_call _ _ _ _) as [c [v|]]; [|discriminate]. injection H as <- <- <-. auto.
+    - destruct (is_object_key k); [destruct (parse_d k) as [v|]; [|discriminate]; injection H as <- <- <-; auto|]. destruct (lru_call _ _ _ _) as [c [v|]]; [|discriminate]. injection H as <- <- <-. auto.
     - dt_branches k; try (injection H as <- <- <-; auto).
+      destruct (is_object_key k); [destruct (parse_dt k) as [v|]; [|discriminate]; injection H as <- <- <-; auto|]. 
       destruct (lru_call _ _ _ _) as [c [v|]]; [|discriminate]. injection H as <- <- <-. auto.
     - destruct (p_rowhist p); [|discriminate]. destruct (existsb _ _); [|discriminate].
       injection H as <- <- <-. auto.
@@ -1103,6 +1112,7 @@ Section P.
     - discriminate.
     - destruct (last_id table s =? n); [discriminate|]. injection H as <- <- <-. auto.
     - destruct (assoc_find site (rs_states s)); [injection H as <- <- <-; auto|].
+      destruct (is_object_key k); [destruct (parse_d k) as [v|]; [|discriminate]; injection H as <- <- <-; auto|]. 
       destruct (lru_call _ _ _ _) as [c [v|]]; [|discriminate]. injection H as <- <- <-. auto.
     - destruct (assoc_find site (rs_states s)); [injection H as <- <- <-; auto|].
       pose proof (with_chdir_restores (match c_dir cx with Some d => d | None => p_cwd p end) p file) as W.
